@@ -244,7 +244,7 @@ def c18(tier, seed, only=None):
     for j in jobs:
         j["cfg"]["render"] = True
         if j["cfg"].get("rerun") and (tier != "quick" or j["scn"]["name"] not in big_names
-                                       or "-j1-" in j["scn"]["name"]):
+                                       or "-m2-j1-" in j["scn"]["name"]):
             j["cfg"]["rerun_with_inflight"] = True
             j["cfg"]["dev"] = j["cfg"]["dev"] + 1
     jobs = _filter(jobs, only)
